@@ -6,5 +6,5 @@ From GV Require Import Keys.Model Keys.Spec Keys.Monitors.
 From Coq Require Import ZArith.
 Extraction Language OCaml.
 Extraction "keys_model.ml" getAffinityKeysFromMessage keysFromMessage ref_get_keys to_outcome result_of
-  C11_ok C11_total_ok in_model c11_monitor acc_class has_nil_anon_ptr title_ok split_ok title split_dot ascii fanouts
+  C11_ok C11_total_ok in_model c11_monitor acc_class has_nil_anon_ptr same_result title_ok split_ok title split_dot ascii fanouts
   Z.of_N. (* Z only because ocaml/common/conv.ml mentions the type *)
